@@ -16,6 +16,10 @@ CANARIES = ["canary.week52"]
 
 def _quick_at(name):
     shape, spec = name.split(":")
+    if shape.endswith("-24"):
+        # p in the 24:00 form: quick keeps four of the twelve cases, one per target family
+        return (shape, spec) in (("cal-hms-24", "hh"), ("cal-hms-24", "dom"),
+                                 ("week-hms-24", "mm"), ("ord-hms-24", "dow"))
     if spec in ("dow+hh", "ww-dow-late"):
         return False                      # thorough tier (the quick tier keeps dom+hh, ww-dow)
     return shape in ("cal-hms",) or (shape, spec) in (
@@ -37,12 +41,19 @@ EXPLANATION = (
     "offset; either operand order gives the same result and applying t again is the "
     "identity (ghost program). Targets that do not exist in every period (day 29-31, "
     "day 366, week 52/53): PARTIAL correctness proved with the same invariants (valid result, fields as "
-    "asked, earliest) - cases *:dom-late, *:doy-late, *:ww-dow-late, variants not generated. BOUNDED: "
-    "termination for those targets and the other combined time+day "
-    "designators: native runs with a time limit.")
+    "asked, earliest) - cases *:dom-late, *:doy-late, *:ww-dow-late, variants not generated. "
+    "p in the 24:00 end-of-day form (cases *-24:*, possible since the repair 7cabc45 "
+    "normalises it first): hour, minute, weekday and day-of-month targets, same clauses with "
+    "'not earlier than p' read on the instant (next-day 00:00). BOUNDED: "
+    "termination for the sometimes-absent targets (time limit), and a brute-force ORACLE grid "
+    "(add_truncated.vs-search-oracle: 22 truncated points x start points incl. 24:00 x t "
+    "with/without its own UTC offset, earliest match computed by exhaustive search straight "
+    "from the property statement) - which is also what reports the recorded finding KF-C20-2 "
+    "(day designator + minute/second-only time designator: a match, but not the earliest).")
 ASSUMPTIONS = [
     "termination for sometimes-absent targets is not a generated obligation (bounded)",
-    "p is a whole-second point whose last time field is integral; 24:00 excluded"]
+    "p is a whole-second point whose last time field is integral; 24:00 p: the *-24 cases "
+    "(hour / minute / weekday / day-of-month targets) and the oracle grid"]
 LEVEL_TEXT = ("Proof for the stated time-of-day and single day-designator shapes incl. "
               "minimality and termination where the target always exists; bounded native "
               "runs for the rest: 'other'.")
@@ -139,7 +150,132 @@ def bounded(tier, seed, repo):
                     signal.alarm(0)
     data.CALENDAR.set_mode("gregorian")
     cal.set_mode("gregorian")
-    return [{"name": "add_truncated.sometimes-absent-and-combined", "kind": "grid",
+    return [oracle_grid(tier, seed, repo), {
+             "name": "add_truncated.sometimes-absent-and-combined", "kind": "grid",
              "bound": "4 modes x day 28..31 / last day of common and leap year / week 52, 53 / "
                       "two combined time+day designators x 9 start points (month ends, leap and common Februaries); 10 s limit",
              "evaluations": n, "exhaustive": False, "failures": fails}]
+
+
+def _oracle(cal, L0, sod_p, kw, horizon=1500):
+    """Earliest local second >= L0 whose date-time matches the truncated fields `kw`
+    (fields below the smallest specified time field zero; no time field: time of day kept).
+    Brute force over days x candidate times of day, straight from the property statement."""
+    h, mi, sc = kw.get("hour_of_day"), kw.get("minute_of_hour"), kw.get("second_of_minute")
+    if h is None and mi is None and sc is None:
+        sods = [sod_p]
+    else:
+        hs = [h] if h is not None else range(24)
+        ms = [mi] if mi is not None else ([0] if h is not None else range(60))
+        ss = [sc] if sc is not None else [0]
+        sods = sorted(3600 * a + 60 * b + c for a in hs for b in ms for c in ss)
+    a0 = L0 // 86400
+    for a in range(a0, a0 + horizon):
+        # `a` is a proleptic day number as spec.cal counts them: absday(y, n) = dby(y) + n
+        y = a // 366
+        while cal.dby(y + 1) < a:
+            y += 1
+        while cal.dby(y) >= a:
+            y -= 1
+        n = a - cal.dby(y)
+        m, d = cal.md_of(y, n)
+        wy, w, wd = cal.week_of(y, a)
+        if kw.get("day_of_month") not in (None, d) or kw.get("day_of_year") not in (None, n) \
+                or kw.get("day_of_week") not in (None, wd) \
+                or kw.get("week_of_year") not in (None, w):
+            continue
+        for sd in sods:
+            if 86400 * a + sd >= L0:
+                return 86400 * a + sd
+    return None
+
+
+def oracle_grid(tier, seed, repo):
+    """t + p against a brute-force reading of the property: every designator family, p in
+    hh:mm:ss and 24:00 forms, t with and without its own UTC offset, both operand orders,
+    idempotence."""
+    import random
+    if repo not in sys.path:
+        sys.path.insert(0, repo)
+    import metomi.isodatetime.data as data
+    from metomi.isodatetime.data import TimePoint
+    import spec.cal as cal
+    rnd = random.Random(seed)
+    fails, n = [], 0
+    signal.signal(signal.SIGALRM, _alarm)
+    ts = [{"hour_of_day": 6}, {"hour_of_day": 0}, {"minute_of_hour": 30},
+          {"second_of_minute": 15}, {"hour_of_day": 17, "minute_of_hour": 45},
+          {"minute_of_hour": 30, "second_of_minute": 15},
+          {"hour_of_day": 6, "minute_of_hour": 30, "second_of_minute": 15},
+          {"day_of_month": 15}, {"day_of_month": 1}, {"day_of_year": 60}, {"day_of_week": 1},
+          {"day_of_week": 7}, {"week_of_year": 1, "day_of_week": 1},
+          {"week_of_year": 20, "day_of_week": 5},
+          {"day_of_month": 15, "hour_of_day": 6}, {"day_of_month": 28, "hour_of_day": 0},
+          {"day_of_week": 1, "hour_of_day": 6, "minute_of_hour": 30},
+          {"day_of_year": 100, "hour_of_day": 23},
+          {"week_of_year": 10, "day_of_week": 3, "hour_of_day": 12},
+          # a day designator with a time designator that leaves the hour open
+          {"day_of_month": 28, "minute_of_hour": 30}, {"day_of_week": 3, "minute_of_hour": 0},
+          {"day_of_year": 1, "second_of_minute": 15}]
+    starts = [(2021, 1, 15, 0, 30, 1), (2021, 1, 15, 7, 0, 0), (2020, 2, 28, 23, 59, 59),
+              (2019, 12, 31, 24, 0, 0), (2020, 1, 14, 24, 0, 0), (2021, 1, 28, 6, 30, 15),
+              (2020, 12, 31, 6, 0, 0), (2021, 5, 17, 17, 45, 0), (2021, 3, 1, 0, 0, 0),
+              (2020, 2, 29, 12, 0, 1), (2021, 1, 4, 6, 30, 0)]
+    tzs = [None, (5, 30), (-8, 0)]
+    modes = ALL_MODES if tier == "thorough" else ["gregorian", "360day"]
+    for mode in modes:
+        data.CALENDAR.set_mode(mode)
+        cal.set_mode(mode)
+        for kw in ts:
+            for (y, m, d, hh, mi, ss) in (starts if tier == "thorough"
+                                          else rnd.sample(starts, 6)):
+                if d > cal.dim(y, m):
+                    d = cal.dim(y, m)
+                for tz in (tzs if tier == "thorough" else [None, rnd.choice(tzs[1:])]):
+                    n += 1
+                    p = TimePoint(year=y, month_of_year=m, day_of_month=d, hour_of_day=hh,
+                                  minute_of_hour=mi, second_of_minute=ss)
+                    tkw = dict(kw)
+                    off = 0
+                    if tz is not None:
+                        tkw.update(time_zone_hour=tz[0], time_zone_minute=tz[1])
+                        off = 3600 * tz[0] + 60 * tz[1]
+                    inp = {"mode": mode, "t": kw, "t_zone": tz, "p": str(p)}
+                    signal.alarm(10)
+                    try:
+                        t = TimePoint(truncated=True, **tkw)
+                        inst_p = 86400 * cal.cal_abs(y, m, d) + 3600 * hh + 60 * mi + ss
+                        L0 = inst_p + off
+                        want = _oracle(cal, L0, L0 % 86400, kw)
+                        r = t + p
+                        got = 86400 * cal.cal_abs(*r.get_calendar_date()) + \
+                            r.get_second_of_day()
+                        ok = (want is not None and got == want - off
+                              and r.time_zone == p.time_zone and (p + t) == r
+                              and (t + r) == r and r >= p)
+                        if not ok and len(fails) < 60:
+                            fails.append({"id": "%s-%d" % (mode, n), "input": inp,
+                                          "observed": str(r),
+                                          "expected": "instant %s (seconds from 0000-01-01, "
+                                                      "UTC), p's offset, same in both operand "
+                                                      "orders, unchanged when t is applied "
+                                                      "again" % (None if want is None
+                                                                 else want - off)})
+                    except _Hang:
+                        fails.append({"id": "hang-%s-%d" % (mode, n), "input": inp,
+                                      "observed": "no result within 10 s"})
+                    except Exception as e:
+                        if len(fails) < 60:
+                            fails.append({"id": "exc-%s-%d" % (mode, n), "input": inp,
+                                          "observed": "%s: %s" % (type(e).__name__,
+                                                                  str(e)[:100])})
+                    finally:
+                        signal.alarm(0)
+    data.CALENDAR.set_mode("gregorian")
+    cal.set_mode("gregorian")
+    return {"name": "add_truncated.vs-search-oracle", "kind": "grid",
+            "bound": "22 truncated points (time-only, day-only, week+weekday, combined) x %s "
+                     "start points incl. 24:00, exact matches and 23:59:59 x t without / with "
+                     "its own UTC offset x %d modes; brute-force earliest match as oracle; "
+                     "10 s limit" % ("11" if tier == "thorough" else "6 of 11", len(modes)),
+            "evaluations": n, "exhaustive": False, "failures": fails}
